@@ -1,1 +1,631 @@
-"""placeholder"""
+"""The simulated world the real pyminify entry point runs in.
+
+Real: python_minifier.__main__.main(), argparse, os.walk, CPython's io stack on real file descriptors,
+the kernel's tmpfs.  Owned by the simulator: argv, stdin/stdout/stderr (in-memory stubs that log every
+write with the global event number), os.environ entries, directory listing order (a seeded permutation
+of the real listing), errno faults and crash points (raised by the interposer around the real calls).
+"""
+import builtins
+import errno
+import io
+import os
+import stat
+import sys
+
+from sim import seeds, wire
+
+ERRNO = {'EACCES': errno.EACCES, 'ENOENT': errno.ENOENT, 'EIO': errno.EIO, 'EMFILE': errno.EMFILE,
+         'EROFS': errno.EROFS, 'ENOSPC': errno.ENOSPC, 'EPIPE': errno.EPIPE}
+
+# fault kinds applicable to each event class (the single-fault space enumerated per world)
+FAULT_KINDS = {
+    'scandir': ['EACCES', 'ENOENT'],
+    'open_r': ['EACCES', 'ENOENT', 'EIO', 'EMFILE'],
+    'read': ['EIO', 'crash'],
+    'open_w': ['EACCES', 'EROFS', 'EMFILE', 'crash'],
+    'opened_w': ['crash'],
+    'write': ['ENOSPC:0', 'ENOSPC:half', 'EIO:half', 'crash_before', 'crash_after'],
+    'close_w': ['EIO:flushed', 'EIO:lost', 'crash'],
+    'stdout': ['EPIPE'],
+}
+INPUT_SIDE = {'scandir', 'open_r', 'read', 'open_w'}          # nothing of the target has been modified yet
+WRITE_PHASE = {'opened_w', 'write', 'close_w'}                # the real open-for-write has happened
+
+
+class SimCrash(BaseException):
+    """Simulated process death: unwinds main() without letting any proxied file flush."""
+
+
+# ------------------------------------------------------------------------------------------ tree
+def build_tree(root, tree):
+    os.makedirs(root)
+    for ent in tree:
+        kind, rel = ent[0], ent[1]
+        p = os.path.join(root, rel)
+        if kind == 'd':
+            os.makedirs(p, exist_ok=True)
+        elif kind == 'f':
+            os.makedirs(os.path.dirname(p), exist_ok=True)
+            with io.open(p, 'wb') as f:
+                f.write(wire.dec_bytes(ent[2]))
+            if len(ent) > 3 and ent[3] is not None:
+                os.chmod(p, ent[3])
+        elif kind == 'l':
+            os.makedirs(os.path.dirname(p), exist_ok=True)
+            os.symlink(ent[2], p)
+
+
+def snapshot(root):
+    """rel path -> ('d', mode) | ('f', bytes, mode) | ('l', target).  Does not follow links."""
+    snap = {}
+    stack = ['']
+    while stack:
+        rel = stack.pop()
+        p = os.path.join(root, rel) if rel else root
+        for name in sorted(os.listdir(p)):
+            r = (rel + '/' + name) if rel else name
+            q = os.path.join(root, r)
+            st = os.lstat(q)
+            if stat.S_ISLNK(st.st_mode):
+                snap[r] = ('l', os.readlink(q))
+            elif stat.S_ISDIR(st.st_mode):
+                snap[r] = ('d', stat.S_IMODE(st.st_mode))
+                stack.append(r)
+            else:
+                with io.open(q, 'rb') as f:
+                    snap[r] = ('f', f.read(), stat.S_IMODE(st.st_mode))
+    return snap
+
+
+def rmtree(root):
+    import shutil
+    shutil.rmtree(root, ignore_errors=True)
+
+
+# ------------------------------------------------------------------------------------------ stubs
+class _BinSink(object):
+    def __init__(self, world, name):
+        self.world = world
+        self.name = name
+
+    def write(self, data):
+        data = bytes(data)
+        self.world.std_write(self.name, 'b', data)
+        return len(data)
+
+    def flush(self):
+        pass
+
+    def fileno(self):
+        raise io.UnsupportedOperation('fileno')
+
+    def isatty(self):
+        return False
+
+    def writable(self):
+        return True
+
+
+class _TextSink(object):
+    encoding = 'utf-8'
+    errors = 'strict'
+    newlines = None
+    closed = False
+
+    def __init__(self, world, name):
+        self.world = world
+        self.name = name
+        self.buffer = _BinSink(world, name)
+
+    def write(self, s):
+        if not isinstance(s, str):
+            raise TypeError('write() argument must be str, not %s' % type(s).__name__)
+        self.world.std_write(self.name, 't', s)
+        return len(s)
+
+    def writelines(self, lines):
+        for l in lines:
+            self.write(l)
+
+    def flush(self):
+        pass
+
+    def fileno(self):
+        raise io.UnsupportedOperation('fileno')
+
+    def isatty(self):
+        return False
+
+    def writable(self):
+        return True
+
+    def readable(self):
+        return False
+
+
+class _BinSource(object):
+    def __init__(self, world, data):
+        self.world = world
+        self.bio = io.BytesIO(data)
+
+    def read(self, n=-1):
+        self.world.event('stdin_read', None)
+        return self.bio.read(n)
+
+    def readline(self, n=-1):
+        return self.bio.readline(n)
+
+    def readinto(self, b):
+        return self.bio.readinto(b)
+
+    def readable(self):
+        return True
+
+    def fileno(self):
+        raise io.UnsupportedOperation('fileno')
+
+    def isatty(self):
+        return False
+
+
+class _TextSource(object):
+    encoding = 'utf-8'
+    errors = 'strict'
+    closed = False
+
+    def __init__(self, world, data):
+        self.buffer = _BinSource(world, data)
+
+    def read(self, n=-1):
+        return self.buffer.read(n).decode('utf-8')
+
+    def readline(self, n=-1):
+        return self.buffer.readline(n).decode('utf-8')
+
+    def readable(self):
+        return True
+
+    def isatty(self):
+        return False
+
+    def fileno(self):
+        raise io.UnsupportedOperation('fileno')
+
+
+# ------------------------------------------------------------------------------------------ file proxy
+class FileProxy(object):
+    """Thin proxy over the real file object with before/after hooks."""
+
+    def __init__(self, world, real, path, rp, writing, reading):
+        self.__dict__['_w'] = world
+        self.__dict__['_real'] = real
+        self.__dict__['_path'] = path
+        self.__dict__['_rp'] = rp
+        self.__dict__['_writing'] = writing
+        self.__dict__['_reading'] = reading
+        self.__dict__['_closed_by_proxy'] = False
+        self.__dict__['_lost'] = False
+
+    # --- reads
+    def _read_event(self):
+        if self._reading and not self._writing:
+            f = self._w.event('read', self._path, rp=self._rp)
+            if f is not None:
+                if f['kind'] == 'crash':
+                    self._w.crash()
+                self._w.raise_errno(f['kind'], self._path)
+
+    def read(self, *a):
+        self._read_event()
+        return self._real.read(*a)
+
+    def readline(self, *a):
+        self._read_event()
+        return self._real.readline(*a)
+
+    def readlines(self, *a):
+        self._read_event()
+        return self._real.readlines(*a)
+
+    def readinto(self, b):
+        self._read_event()
+        return self._real.readinto(b)
+
+    def __iter__(self):
+        self._read_event()
+        return iter(self._real)
+
+    # --- writes
+    def write(self, data):
+        if not self._writing:
+            return self._real.write(data)
+        f = self._w.event('write', self._path, rp=self._rp, nb=len(data))
+        if f is not None:
+            kind = f['kind']
+            if kind == 'crash_before':
+                self._w.crash()
+            if kind.startswith('ENOSPC') or kind.startswith('EIO'):
+                code, _, how = kind.partition(':')
+                k = 0 if how == '0' else len(data) // 2
+                if k:
+                    self._real.write(data[:k])
+                try:
+                    self._real.flush()
+                except Exception:
+                    pass
+                raise OSError(ERRNO[code], os.strerror(ERRNO[code]), self._path)
+            if kind == 'crash_after':
+                n = self._real.write(data)
+                self._w.crash()
+                return n
+        return self._real.write(data)
+
+    def writelines(self, lines):
+        for l in lines:
+            self.write(l)
+
+    def truncate(self, *a):
+        if self._writing:
+            self._w.modlog('truncate', self._path, self._rp)
+        return self._real.truncate(*a)
+
+    def close(self):
+        if self._closed_by_proxy or self._lost:
+            return
+        if self._writing:
+            f = self._w.event('close_w', self._path, rp=self._rp)
+            if f is not None:
+                kind = f['kind']
+                if kind == 'crash':
+                    self._w.crash()
+                if kind == 'EIO:flushed':
+                    self.__dict__['_closed_by_proxy'] = True
+                    self._real.close()
+                    raise OSError(errno.EIO, os.strerror(errno.EIO), self._path)
+                if kind == 'EIO:lost':
+                    self.lose()
+                    raise OSError(errno.EIO, os.strerror(errno.EIO), self._path)
+        self.__dict__['_closed_by_proxy'] = True
+        return self._real.close()
+
+    def lose(self):
+        """Process death / lost flush: whatever sits in user-space buffers never reaches the file."""
+        if self._lost or self._closed_by_proxy:
+            return
+        self.__dict__['_lost'] = True
+        try:
+            os.dup2(self._w.devnull, self._real.fileno())
+        except Exception:
+            pass
+        try:
+            self._real.close()
+        except Exception:
+            pass
+
+    def __enter__(self):
+        return self
+
+    def __exit__(self, et, ev, tb):
+        self.close()
+        return False
+
+    def __getattr__(self, name):
+        return getattr(self._real, name)
+
+    def __setattr__(self, name, value):
+        setattr(self._real, name, value)
+
+    @property
+    def closed(self):
+        return self._real.closed
+
+    def __del__(self):
+        # an unclosed real file flushes when collected, exactly as without the proxy
+        pass
+
+
+class _ScandirResult(object):
+    def __init__(self, entries):
+        self._it = iter(entries)
+
+    def __iter__(self):
+        return self
+
+    def __next__(self):
+        return next(self._it)
+
+    def __enter__(self):
+        return self
+
+    def __exit__(self, *a):
+        return False
+
+    def close(self):
+        pass
+
+
+# ------------------------------------------------------------------------------------------ world
+class World(object):
+    """One execution of the command.  `faults` is a list of {'ev': class, 'n': ordinal, 'kind': kind}."""
+
+    def __init__(self, root, listing_seed, faults=None, sink=None, real_crash=False):
+        self.root = os.path.realpath(root)
+        self.listing_seed = listing_seed
+        self.faults = {}
+        for f in (faults or []):
+            self.faults[(f['ev'], f['n'])] = f
+        self.events = []
+        self.sink = sink                  # fd to stream events to (real-crash runs)
+        self.real_crash = real_crash
+        self.counts = {}
+        self.fired = []
+        self.seq = 0
+        self.std = []                     # [(seq, stream, 'b'|'t', payload)]
+        self.open_proxies = []
+        self.crashed = False
+        self.mods = []                    # modifying operations: (seq, op, path as given, realpath-rel or None)
+        self.outside = []                 # accesses outside the world root
+        self.devnull = os.open(os.devnull, os.O_WRONLY)
+
+    # ---------------------------------------------------------------- paths
+    def rel(self, path):
+        """-> (rel-to-root realpath, or None when outside the world)"""
+        try:
+            p = os.fspath(path)
+            if isinstance(p, bytes):
+                p = os.fsdecode(p)
+            rp = os.path.realpath(p)
+        except Exception:
+            return None
+        if rp == self.root:
+            return ''
+        if rp.startswith(self.root + os.sep):
+            return rp[len(self.root) + 1:]
+        return None
+
+    def norm(self, path):
+        try:
+            p = os.fspath(path)
+            if isinstance(p, bytes):
+                p = os.fsdecode(p)
+        except Exception:
+            return repr(path)
+        return p.replace(self.root, '{ROOT}')
+
+    # ---------------------------------------------------------------- events and faults
+    def event(self, cls, path, rp=None, **extra):
+        n = self.counts.get(cls, 0)
+        self.counts[cls] = n + 1
+        self.seq += 1
+        ev = {'s': self.seq, 'c': cls, 'n': n}
+        if path is not None:
+            ev['p'] = self.norm(path)
+            ev['rp'] = rp if rp is not None else self.rel(path)
+        ev.update(extra)
+        f = self.faults.get((cls, n))
+        if f is not None:
+            ev['fault'] = f['kind']
+            self.fired.append({'ev': cls, 'n': n, 'kind': f['kind'], 'p': ev.get('p'), 'rp': ev.get('rp'), 's': self.seq})
+        self.log(ev)
+        return f
+
+    def log(self, ev):
+        self.events.append(ev)
+        if self.sink is not None:
+            wire.write_frame(self.sink, ev)
+
+    def modlog(self, op, path, rp=None):
+        self.seq += 1
+        ev = {'s': self.seq, 'c': 'mod', 'op': op, 'p': self.norm(path), 'rp': rp if rp is not None else self.rel(path)}
+        self.mods.append(ev)
+        self.log(ev)
+
+    def std_write(self, stream, typ, payload):
+        if stream == 'stdout':
+            f = self.event('stdout', None, typ=typ, n_bytes=len(payload))
+            if f is not None and f['kind'] == 'EPIPE':
+                raise BrokenPipeError(errno.EPIPE, os.strerror(errno.EPIPE))
+        else:
+            self.seq += 1
+        self.std.append((self.seq, stream, typ, payload))
+        if self.sink is not None:
+            wire.write_frame(self.sink, {'s': self.seq, 'c': 'std', 'stream': stream, 'typ': typ,
+                                         'data': wire.enc_bytes(payload if typ == 'b' else payload.encode('utf-8', 'surrogatepass'))})
+
+    def crash(self):
+        self.crashed = True
+        if self.real_crash:
+            os._exit(137)
+        for p in self.open_proxies:
+            p.lose()
+        raise SimCrash()
+
+    def raise_errno(self, kind, path):
+        code = ERRNO[kind]
+        raise OSError(code, os.strerror(code), os.fspath(path) if not isinstance(path, int) else None)
+
+    # ---------------------------------------------------------------- interposed calls
+    def install(self):
+        w = self
+        real_open = io.open
+        real_scandir = os.scandir
+        real_listdir = os.listdir
+        self._saved = {
+            'builtins.open': builtins.open, 'io.open': io.open, 'os.scandir': os.scandir, 'os.listdir': os.listdir,
+        }
+
+        def sim_open(file, mode='r', *args, **kwargs):
+            if isinstance(file, int):
+                return real_open(file, mode, *args, **kwargs)
+            rp = w.rel(file)
+            m = mode if isinstance(mode, str) else 'r'
+            writing = any(c in m for c in 'wxa+')
+            reading = 'r' in m or '+' in m
+            modifying = any(c in m for c in 'wxa')
+            if rp is None:
+                if writing:
+                    w.outside.append(w.norm(file))
+                return real_open(file, mode, *args, **kwargs)
+            if modifying:
+                f = w.event('open_w', file, rp=rp, mode=m)
+                if f is not None:
+                    if f['kind'] == 'crash':
+                        w.crash()
+                    w.raise_errno(f['kind'], file)
+                w.modlog('open:' + m, file, rp)
+                real = real_open(file, mode, *args, **kwargs)
+                proxy = FileProxy(w, real, file, rp, True, reading)
+                w.open_proxies.append(proxy)
+                f = w.event('opened_w', file, rp=rp)
+                if f is not None and f['kind'] == 'crash':
+                    w.crash()
+                return proxy
+            f = w.event('open_r', file, rp=rp, mode=m)
+            if f is not None:
+                w.raise_errno(f['kind'], file)
+            real = real_open(file, mode, *args, **kwargs)
+            proxy = FileProxy(w, real, file, rp, writing, True)
+            if writing:
+                w.open_proxies.append(proxy)
+            return proxy
+
+        def permute(path, names):
+            names = sorted(names)
+            r = seeds.rng(w.listing_seed, 'listing', w.rel(path) if w.rel(path) is not None else w.norm(path))
+            r.shuffle(names)
+            return names
+
+        def sim_scandir(path='.'):
+            if isinstance(path, int) or w.rel(path) is None:
+                return real_scandir(path)
+            f = w.event('scandir', path)
+            if f is not None:
+                w.raise_errno(f['kind'], path)
+            with real_scandir(path) as it:
+                entries = dict((e.name, e) for e in it)
+            order = permute(path, list(entries))
+            return _ScandirResult([entries[n] for n in order])
+
+        def sim_listdir(path='.'):
+            if isinstance(path, int) or w.rel(path) is None:
+                return real_listdir(path)
+            f = w.event('scandir', path)
+            if f is not None:
+                w.raise_errno(f['kind'], path)
+            return permute(path, real_listdir(path))
+
+        builtins.open = sim_open
+        io.open = sim_open
+        os.scandir = sim_scandir
+        os.listdir = sim_listdir
+
+        # modifying os-level operations are passed through and logged
+        def wrap_mod(name, nargs):
+            real = getattr(os, name)
+            self._saved['os.' + name] = real
+
+            def wrapper(*a, **k):
+                for x in a[:nargs]:
+                    if not isinstance(x, int) and w.rel(x) is not None:
+                        w.modlog('os.' + name, x)
+                    elif not isinstance(x, int) and name != 'open':
+                        w.outside.append(w.norm(x))
+                return real(*a, **k)
+            wrapper.__name__ = name
+            setattr(os, name, wrapper)
+
+        for name, nargs in (('remove', 1), ('unlink', 1), ('rename', 2), ('replace', 2), ('truncate', 1), ('rmdir', 1),
+                            ('mkdir', 1), ('symlink', 2), ('link', 2), ('chmod', 1), ('utime', 1)):
+            if hasattr(os, name):
+                wrap_mod(name, nargs)
+
+        real_os_open = os.open
+        self._saved['os.open'] = real_os_open
+
+        def sim_os_open(path, flags, *a, **k):
+            if flags & (os.O_WRONLY | os.O_RDWR | os.O_CREAT | os.O_TRUNC | os.O_APPEND):
+                if w.rel(path) is not None:
+                    w.modlog('os.open:%d' % flags, path)
+                else:
+                    w.outside.append(w.norm(path))
+            return real_os_open(path, flags, *a, **k)
+        os.open = sim_os_open
+
+    def uninstall(self):
+        for k, v in self._saved.items():
+            mod, _, name = k.partition('.')
+            setattr({'builtins': builtins, 'io': io, 'os': os}[mod], name, v)
+        for p in self.open_proxies:
+            if not p._closed_by_proxy and not p._lost:
+                # left open by the command: a real process would flush it at exit
+                try:
+                    p._real.close()
+                except Exception:
+                    pass
+        try:
+            os.close(self.devnull)
+        except OSError:
+            pass
+
+
+def execute(entry, root, cwd, argv, env, stdin_bytes, listing_seed, faults=None, sink=None, real_crash=False):
+    """Run the real entry point once inside the world.  -> record dict."""
+    w = World(root, listing_seed, faults, sink=sink, real_crash=real_crash)
+    saved = {'argv': sys.argv, 'stdin': sys.stdin, 'stdout': sys.stdout, 'stderr': sys.stderr, 'cwd': os.getcwd()}
+    saved_env = {}
+    env = env or {}
+    for k in env:
+        saved_env[k] = os.environ.get(k)
+    exit_status = 0
+    exc = None
+    try:
+        for k, v in env.items():
+            if v is None:
+                os.environ.pop(k, None)
+            else:
+                os.environ[k] = v
+        os.chdir(cwd)
+        sys.argv = ['pyminify'] + [a.replace('{ROOT}', w.root) for a in argv]
+        sys.stdin = _TextSource(w, stdin_bytes if stdin_bytes is not None else b'')
+        sys.stdout = _TextSink(w, 'stdout')
+        sys.stderr = _TextSink(w, 'stderr')
+        w.install()
+        try:
+            entry()
+        except SystemExit as e:
+            c = e.code
+            if c is None:
+                exit_status = 0
+            elif isinstance(c, int):
+                exit_status = c & 0xFF
+            else:
+                exit_status = 1
+        except SimCrash:
+            exit_status = 137
+        except BaseException as e:      # an uncaught exception ends a real process with status 1
+            exit_status = 1
+            exc = type(e).__name__
+        finally:
+            w.uninstall()
+    finally:
+        sys.argv = saved['argv']
+        sys.stdin = saved['stdin']
+        sys.stdout = saved['stdout']
+        sys.stderr = saved['stderr']
+        try:
+            os.chdir(saved['cwd'])
+        except OSError:
+            os.chdir('/')
+        for k, v in saved_env.items():
+            if v is None:
+                os.environ.pop(k, None)
+            else:
+                os.environ[k] = v
+    return {
+        'exit': exit_status, 'exc': exc, 'crashed': w.crashed, 'events': w.events, 'fired': w.fired, 'mods': w.mods,
+        'outside': w.outside,
+        'stdout_b': b''.join(p for (_, s, t, p) in w.std if s == 'stdout' and t == 'b'),
+        'stdout_t': ''.join(p for (_, s, t, p) in w.std if s == 'stdout' and t == 't'),
+        'stdout_seq': [(t, p) for (_, s, t, p) in w.std if s == 'stdout'],
+        'stderr_len': sum(len(p) for (_, s, t, p) in w.std if s == 'stderr'),
+    }
